@@ -24,6 +24,7 @@ type result struct {
 	Err     string  `json:"err,omitempty"`
 	Steps   int     `json:"steps"`
 	MaxStep float64 `json:"max_step_ms"`
+	Faulted int     `json:"faulted"`
 }
 
 func main() {
@@ -33,6 +34,7 @@ func main() {
 	workers := flag.Int("workers", 8, "parallel worlds")
 	seed := flag.Int64("seed", 1, "seed for names, payloads and renderings")
 	scratch := flag.String("scratch", os.TempDir(), "scratch directory for database files")
+	faultMode := flag.String("fault", "", "fault enumeration: fail | cancel (C09)")
 	flag.Parse()
 
 	f, err := os.Open(*scen)
@@ -85,10 +87,12 @@ func main() {
 						break
 					}
 					ex := busexec.New(w, s, *seed*1000003+int64(i))
+					ex.FaultMode = *faultMode
 					err = ex.Run(ctx)
 					w.Close()
 					cancel()
 					r.MaxStep = float64(ex.MaxStep) / 1e6
+					r.Faulted = ex.Faulted
 					if err == nil {
 						r.Status, r.Err = "ok", ""
 						r.Steps = len(s.Steps)
